@@ -33,12 +33,54 @@ package util
 //@ ensures[empty-claim-name-is-absent] claim == "" ==> ret0 == nil && !ret1 && ret2 == nil
 //@ ensures[present-means-a-value] ret1 ==> ret0 != nil && ret2 == nil
 
+// (the same precondition is stated on the interface method: callers reach GetClaimInto through ClaimExtractor)
+//@ iface ClaimExtractor.GetClaimInto
+//@ prop C04 C14 C19
+//@ requires[destination-is-no-nil-pointer] as(dst, "*string") != nil && as(dst, "*[]string") != nil && as(dst, "*bool") != nil
+
 //@ func (*claimExtractor).GetClaimInto
 //@ safety
 //@ prop C04 C14
+//@ requires[destination-is-no-nil-pointer] as(dst, "*string") != nil && as(dst, "*[]string") != nil && as(dst, "*bool") != nil
 //@ at call coerceClaim assert[coerces-the-looked-up-value-into-the-destination] arg(coerceClaim, 0) == ret0(GetClaim) && arg(coerceClaim, 1) == dst
 //@     && arg(GetClaim, 1) == claim && recv(GetClaim) == c && ret2(GetClaim) == nil && ret1(GetClaim)
 //@ ensures[lookup-error-propagates] ret2(GetClaim) != nil ==> !ret0 && ret1 != nil && !called(coerceClaim)
 //@ ensures[absent-claim-leaves-the-destination-alone] ret2(GetClaim) == nil && !ret1(GetClaim) ==> !ret0 && ret1 == nil && !called(coerceClaim)
 //@ ensures[coercion-error-propagates] called(coerceClaim) && ret(coerceClaim) != nil ==> !ret0 && ret1 != nil
 //@ ensures[present-and-coerced] called(coerceClaim) && ret(coerceClaim) == nil ==> ret0 && ret1 == nil
+
+// ------------------------------------------------------------------ C14 / C19: coercion of a claim value into its destination: a value
+// that cannot be converted is an error and leaves the destination as it was; no type assertion is unchecked
+//@ func coerceClaim
+//@ safety
+//@ nilable value
+//@ prop C14 C19
+//@ requires[destination-is-no-nil-pointer] as(dst, "*string") != nil && as(dst, "*[]string") != nil && as(dst, "*bool") != nil
+//@ ensures[unknown-destination-type-is-an-error] !typeis(dst, "*string") && !typeis(dst, "*[]string") && !typeis(dst, "*bool") ==> result != nil
+//@ ensures[string-conversion-error-is-an-error] called(toString) && ret1(toString) != nil ==> result != nil
+//@     && deref(as(dst, "*string")) == old(deref(as(dst, "*string")))
+//@ ensures[string-is-the-converted-value] called(toString) && ret1(toString) == nil ==> result == nil && typeis(dst, "*string")
+//@     && deref(as(dst, "*string")) == ret0(toString) && arg(toString, 0) == value
+//@ ensures[slice-conversion-error-is-an-error] called(toStringSlice) && ret1(toStringSlice) != nil ==> result != nil
+//@ ensures[slice-is-the-converted-value] called(toStringSlice) && ret1(toStringSlice) == nil ==> result == nil && typeis(dst, "*[]string")
+//@     && arg(toStringSlice, 0) == value
+
+//@ func toStringSlice
+//@ safety
+//@ nomod
+//@ nilable value
+//@ prop C14 C19
+//@ loop 0 invariant[entries-so-far] rangeindex >= -1 && out != nil
+//@ ensures[an-entry-that-cannot-be-converted-is-an-error] called(toString) && ret1(toString) != nil ==> ret1 != nil && ret0 == nil
+//@ ensures[a-list-or-an-error] (ret1 == nil ==> ret0 != nil) && (ret1 != nil ==> ret0 == nil)
+
+//@ func toString
+//@ safety
+//@ nomod
+//@ nilable value
+//@ prop C14 C19
+//@ ensures[marshalling-error-is-an-error] called(json.Marshal) && ret1(json.Marshal) != nil ==> ret1 != nil && ret0 == ""
+//@ ensures[string-form-or-json] ret1 == nil ==> (ret1(ToStringE) == nil && ret0 == ret0(ToStringE)) || (called(json.Marshal) && ret1(json.Marshal) == nil
+//@     && ret0 == bytes(ret0(json.Marshal)))
+//@ at call ToStringE assert[of-the-value] arg(ToStringE, 0) == value
+//@ at call json.Marshal assert[of-the-value] arg(json.Marshal, 0) == value
